@@ -1043,6 +1043,11 @@ class Terms:
         plain = ("call", qual, args, kws)
         if os.environ.get("MOKAPOT_NO_CALLCANON"):
             return plain
+        if qual == "builtins.getattr" and len(args) == 2 and not kws and \
+                args[1][0] == "const" and isinstance(args[1][1], str) and \
+                args[1][1].isidentifier():
+            # getattr(x, "name") is x.name
+            return ("attr", args[0], args[1][1])
         if qual == "builtins.dict" and not args and kws and not any(
                 k == "**" for k, _v in kws):
             # dict(a=x, b=y) is the display {"a": x, "b": y}
@@ -1160,6 +1165,19 @@ class Terms:
         return (tuple(out_pos),
                 tuple(sorted(bound.items(), key=lambda x: x[0])))
 
+    def _regetattr(self, t):
+        """getattr(x, "name") -> x.name after a constant was substituted"""
+        from .tutil import map_term
+
+        def f(x):
+            if x[0] == "call" and x[1] == "builtins.getattr" and \
+                    len(x[2]) == 2 and not x[3] and x[2][1][0] == "const" \
+                    and isinstance(x[2][1][1], str) and \
+                    x[2][1][1].isidentifier():
+                return ("attr", x[2][0], x[2][1][1])
+            return x
+        return map_term(t, f)
+
     def _kw(self, keywords, depth, cenv):
         out = []
         for kw in keywords:
@@ -1167,6 +1185,12 @@ class Terms:
                 # f(**{"a": x, "b": y}) / f(**dict(a=x, b=y)) / a local
                 # name bound once to such a display: the keywords themselves
                 vt = self._t(kw.value, depth, cenv)
+                if vt[0] == "comp" and vt[1] == "dict":
+                    # {k: f(k) for k in ("a", "b")}: the display of its
+                    # instances
+                    from .tutil import expand_const_comp
+                    vt = expand_const_comp(vt)
+                    vt = self._regetattr(vt)
                 named = None
                 if vt[0] == "dict" and len(vt) == 3 and all(
                         k[0] == "const" and isinstance(k[1], str)
